@@ -177,7 +177,15 @@ def run_case(ctx, index):
     date = r.choice([datetime.datetime(2022, 2, 3, 4, 5, 6, 789),
                      datetime.datetime(2022, 2, 3, 4, 5, 6),       # no usec
                      datetime.datetime(1999, 12, 31),              # midnight
-                     datetime.datetime(2030, 1, 1, 23, 59, 59, 999999)])
+                     datetime.datetime(2030, 1, 1, 23, 59, 59, 999999),
+                     # dates that say which time zone they are in
+                     datetime.datetime(2022, 2, 3, 4, 5, 6, 789,
+                                       tzinfo=datetime.timezone.utc),
+                     datetime.datetime(2022, 2, 3, 4, 5, 6,
+                                       tzinfo=datetime.timezone(
+                                           datetime.timedelta(hours=-9.5))),
+                     datetime.datetime(1970, 1, 1)])
+    ctx.cls('date', 'aware' if date.tzinfo else 'naive')
     desc = {'table': spec.describe(), 'recipe': recipe, 'layout': st,
             'generated_by': gby}
     exp = snap.snap_spec(spec)
